@@ -12,7 +12,7 @@ import (
 func init() {
 	register(&propDef{
 		id: "C14", level: "other", perCfg: true,
-		explain: "Necessary structural conditions of C14, decided for all paths of each serving function (found by role: the outermost functions whose inlined view calls net.Listener.Accept - the accept loop, the refresh and the reset may be written out or factored into helpers; each is checked on its own, which is the sibling cross-check between Listen and DoListen). L1: a deferred closure registered before any return runs the state reset and then wg.Wait() on the same WaitGroup the handlers release - draining on every exit. L2: Accept is called on the listener read under the mutex. L3 accounting: between a successful Accept and the `go handler` there is exactly one counter increment and exactly one wg.Add(1) on every path, every successful accept reaches the `go` before the next accept or any return, the handler receives that connection and that WaitGroup, the handler executes exactly one decrement and one Done on every path (defers included), and nothing else in the package writes the counter. L4 exit protocol: every path to Accept re-tests `running`; not-running exits return nil; on a non-timeout accept error the function returns nil when not running and the accept error otherwise. L5: Shutdown stores running=false on every path before closing the current listener (or finds no listener), synchronously. L6: Bind's refusal on `running` touches neither address nor listener. L7: the reset clears exactly the fields written on the bind path plus `running`, and closes the listener it drops. L5 also: Shutdown waits for nothing but the mutex (no channel operation, WaitGroup/Cond wait or sleep), since a method handler may issue it. L5/L6 are decided in the inlined views of Shutdown and Bind (the effects may live in a helper of a nested state struct, the flag may be read through a getter). L9 (= C10.S9) nothing in the handler waits for the peer outside the context-aware wrapper.",
+		explain: "Necessary structural conditions of C14, decided for all paths of each serving function (found by role: the outermost functions whose inlined view calls net.Listener.Accept - the accept loop, the refresh and the reset may be written out or factored into helpers; each is checked on its own, which is the sibling cross-check between Listen and DoListen). L1: a deferred closure registered before any return runs the state reset and then wg.Wait() on the same WaitGroup the handlers release - draining on every exit. L2: Accept is called on the listener read under the mutex. L3 accounting: between a successful Accept and the `go handler` there is exactly one counter increment and exactly one wg.Add(1) on every path, every successful accept reaches the `go` before the next accept or any return, the handler receives that connection and that WaitGroup, the handler executes exactly one decrement and one Done on every path (defers included), and nothing else in the package writes the counter. L4 exit protocol: every path to Accept re-tests `running`; not-running exits return nil; on a non-timeout accept error the function returns nil when not running and the accept error otherwise. L5: Shutdown stores running=false on every path before closing the current listener (or finds no listener), synchronously. L6: Bind's refusal on `running` touches neither address nor listener. L7: the reset clears exactly the fields written on the bind path plus `running`, and closes the listener it drops. L5 also: Shutdown waits for nothing but the mutex (no channel operation, WaitGroup/Cond wait or sleep), since a method handler may issue it. L5/L6 are decided in the inlined views of Shutdown and Bind (the effects may live in a helper of a nested state struct, the flag may be read through a getter). L9 (= C10.S9) nothing in the handler waits for the peer outside the context-aware wrapper. L4 also: the running mark is set before the first Accept and the listener is tested non-nil before use. L8 (= C17.D1-D3,D5), L10 (= C10.S1,S2) a bad or incomplete frame ends its connection so the drain terminates, L11 (= C16.LB) lock balance.",
 		notDec:  "Real schedules and timing ('as soon as'); that closing a Go listener makes a blocked Accept fail and that no connection is accepted from a closed listener (net contract); behaviour of user dispatchers.",
 		trusted: []string{"net.Listener.Close unblocks a pending Accept with a non-timeout error and refuses later connections", "sync.WaitGroup.Wait returns when every Add has been matched by a Done"},
 		assume:  []string{"one serving call at a time on a Service (the property's model)"},
@@ -231,9 +231,12 @@ func runC14(r *Run, p *Prog) {
 			// a serving function that does not create the listener itself accepts only on a listener it has tested
 			{
 				creates := false
-				for _, cs := range callsIn(sf.Fn, false) {
-					if nm := calleeName(cs.Common); strings.HasPrefix(nm, "net.Listen") || nm == "net.ListenConfig.Listen" || nm == "net.FileListener" {
-						creates = true
+				// (anywhere below it: the view inlines a bounded number of levels, the bind step may sit deeper)
+				for g := range cg.Reach([]*ssa.Function{sf.Fn, origFn(sf.Fn)}, false) {
+					for _, cs := range callsIn(g, false) {
+						if nm := calleeName(cs.Common); strings.HasPrefix(nm, "net.Listen") || nm == "net.ListenConfig.Listen" || nm == "net.FileListener" {
+							creates = true
+						}
 					}
 				}
 				if ac := sf.Accept; ac != nil && !creates && ac.Call.IsInvoke() {
